@@ -129,7 +129,7 @@ package fiber
 //@   atcall (*DefaultCtx).Cookie: name-is-fiber-flash: cookie.Name == "fiber_flash"
 //@   atcall (*DefaultCtx).Cookie: session-only: cookie.SessionOnly
 //@   atcall (*DefaultCtx).Cookie: value-is-encoding: cookie.Value == str(val) && str(val) == flashEnc(r.messages, epoch)
-//@   atcall (*DefaultCtx).Cookie: value-is-cookie-safe: cookieSafe(cookie.Value)   // FAILS (known finding): the value is raw MessagePack
+//@   atcall (*DefaultCtx).Cookie: [C12] value-is-cookie-safe: cookieSafe(cookie.Value)   // FAILS (known finding): the value is raw MessagePack
 //@   ensures nothing-to-send-no-cookie: old(len(r.messages)) == 0 ==> jarHas == old(jarHas) && jarVal == old(jarVal) && jarAttr == old(jarAttr)
 //@   ensures messages-sent-in-flash-cookie: old(len(r.messages)) > 0 ==> jarHas[respH(r.c)]["fiber_flash"] && len(jarVal[respH(r.c)]["fiber_flash"]) > 0
 //@   ensures cookie-value-is-encoding: old(len(r.messages)) > 0 ==> jarVal[respH(r.c)]["fiber_flash"] == old(flashEnc(r.messages, epoch))
